@@ -15,6 +15,13 @@
      pick[m]     parso's pickle shared through settings.cache_directory: [ver, ptime];
                  used iff file mtime <= pickle mtime
      per Script  the module cache lives on the inference state: nothing survives a Script
+     projpaths[p] the long-lived Project object an editor plugin passes to every Script of process p:
+                 Project._get_sys_path COPIES added_sys_path before it appends the directories that
+                 depend on the buffer (parents of the buffer without __init__.py, buildout paths), so
+                 nothing a Script computed stays on the Project (ProjectKeepsScriptPaths = FALSE;
+                 the what-if TRUE appends to the shared list).  bufpkg says whether the buffer's
+                 directory has an __init__.py: without one the directory itself is a search root and
+                 its modules are importable as top-level modules (`import m`).
    Reference: Resolve(m) = what a fresh process with an empty cache sees: the version
    on disk, or "absent".
    Environment assumption (named, TLC checks the spec with and without it):
@@ -26,7 +33,8 @@
 EXTENDS Naturals, Sequences, FiniteSets, TLC
 
 CONSTANTS Mods, Procs, MaxVer, MaxClock,
-          Assume          \* TRUE: MtimeMonotone is imposed on the mutations
+          Assume,         \* TRUE: MtimeMonotone is imposed on the mutations
+          ProjectKeepsScriptPaths   \* FALSE (the code) | TRUE (what-if)
 
 Absent == 0
 VARIABLES fs,       \* [Mods -> [ver, mtime]]   ver = Absent: no such file
@@ -37,8 +45,10 @@ VARIABLES fs,       \* [Mods -> [ver, mtime]]   ver = Absent: no such file
           mem,      \* [Procs -> [Mods -> [ver, ctime]]]
           pick,     \* [Mods -> [ver, ptime]]
           finder,   \* [Procs -> [listing, dm]]  dm = 0: nothing cached
-          ans       \* last answer [m, got, truth]
-vars == <<fs, dirm, now, nver, maxseen, mem, pick, finder, ans>>
+          ans,      \* last answer [m, got, truth]
+          bufpkg,   \* the buffer's directory has an __init__.py
+          projpaths \* [Procs -> BOOLEAN]  the Project object of p carries the buffer directory as a search root
+vars == <<fs, dirm, now, nver, maxseen, mem, pick, finder, ans, bufpkg, projpaths>>
 
 None == [ver |-> Absent, t |-> 0]
 Init == /\ fs = [m \in Mods |-> None] /\ dirm = 1 /\ now = 1 /\ nver = 0 /\ maxseen = 0
@@ -46,8 +56,9 @@ Init == /\ fs = [m \in Mods |-> None] /\ dirm = 1 /\ now = 1 /\ nver = 0 /\ maxs
         /\ pick = [m \in Mods |-> None]
         /\ finder = [p \in Procs |-> [listing |-> {}, dm |-> 0]]
         /\ ans = [m |-> "none", got |-> Absent, truth |-> Absent]
+        /\ bufpkg = TRUE /\ projpaths = [p \in Procs |-> FALSE]
 
-Tick == now < MaxClock /\ now' = now + 1 /\ UNCHANGED <<fs, dirm, nver, maxseen, mem, pick, finder, ans>>
+Tick == now < MaxClock /\ now' = now + 1 /\ UNCHANGED <<fs, dirm, nver, maxseen, mem, pick, finder, ans, bufpkg, projpaths>>
 \* the assumption: a mutation happens at a time later than anything recorded so far
 Later == Assume => now > maxseen
 
@@ -56,25 +67,28 @@ Write(m) == /\ nver < MaxVer /\ Later
             /\ nver' = nver + 1
             /\ fs' = [fs EXCEPT ![m] = [ver |-> nver + 1, t |-> now]]
             /\ dirm' = IF fs[m].ver = Absent THEN now ELSE dirm      \* creation changes the directory
-            /\ UNCHANGED <<now, maxseen, mem, pick, finder, ans>>
+            /\ UNCHANGED <<now, maxseen, mem, pick, finder, ans, bufpkg, projpaths>>
 Delete(m) == /\ fs[m].ver # Absent /\ Later
              /\ fs' = [fs EXCEPT ![m] = None] /\ dirm' = now
-             /\ UNCHANGED <<now, nver, maxseen, mem, pick, finder, ans>>
+             /\ UNCHANGED <<now, nver, maxseen, mem, pick, finder, ans, bufpkg, projpaths>>
 \* rename a over b: the content AND the modification time travel with the file
 Rename(a, b) == /\ a # b /\ fs[a].ver # Absent /\ Later
                 /\ (Assume => fs[a].t > maxseen)          \* under the assumption the moved file is newer, too
                 /\ fs' = [fs EXCEPT ![b] = fs[a], ![a] = None] /\ dirm' = now
-                /\ UNCHANGED <<now, nver, maxseen, mem, pick, finder, ans>>
+                /\ UNCHANGED <<now, nver, maxseen, mem, pick, finder, ans, bufpkg, projpaths>>
 NewProcess(p) == /\ mem' = [mem EXCEPT ![p] = [m \in Mods |-> None]]
                  /\ finder' = [finder EXCEPT ![p] = [listing |-> {}, dm |-> 0]]
-                 /\ UNCHANGED <<fs, dirm, now, nver, maxseen, pick, ans>>
+                 /\ projpaths' = [projpaths EXCEPT ![p] = FALSE]
+                 /\ UNCHANGED <<fs, dirm, now, nver, maxseen, pick, ans, bufpkg>>
+\* the buffer's directory gets / loses its __init__.py (regular package <-> plain directory)
+ToggleInit == /\ Later /\ bufpkg' = ~bufpkg /\ dirm' = now
+              /\ UNCHANGED <<fs, now, nver, maxseen, mem, pick, finder, ans, projpaths>>
 
 Max(a, b) == IF a > b THEN a ELSE b
-\* a new Script in process p resolves `import m`
-Resolve(p, m) ==
+\* a new Script in process p looks m up in the directory (through the finder and the parser caches)
+Lookup(p, m, truth) ==
   LET present == {x \in Mods : fs[x].ver # Absent}
       fnd == IF finder[p].dm = dirm THEN finder[p] ELSE [listing |-> present, dm |-> dirm]
-      truth == fs[m].ver
   IN /\ finder' = [finder EXCEPT ![p] = fnd]
      /\ IF m \notin fnd.listing
         THEN /\ ans' = [m |-> m, got |-> Absent, truth |-> truth]
@@ -95,10 +109,22 @@ Resolve(p, m) ==
                      /\ mem' = [mem EXCEPT ![p][m] = [ver |-> fs[m].ver, t |-> pt]]
                      /\ pick' = [pick EXCEPT ![m] = [ver |-> fs[m].ver, t |-> now]]
                      /\ ans' = [m |-> m, got |-> fs[m].ver, truth |-> truth]
-  /\ UNCHANGED <<fs, dirm, now, nver>>
+  /\ UNCHANGED <<fs, dirm, now, nver, bufpkg>>
+\* `import pkg.m` / `from . import m`: always reachable through the project root
+Resolve(p, m) == Lookup(p, m, fs[m].ver) /\ UNCHANGED projpaths
+\* `import m` as a top-level module: reachable only while the buffer's directory is a search root, i.e. has no
+\* __init__.py -- or while the Project object still carries it from an earlier Script (what-if)
+ResolveTop(p, m) ==
+  LET root == ~bufpkg \/ projpaths[p]
+      truth == IF bufpkg THEN Absent ELSE fs[m].ver IN
+  /\ projpaths' = IF ProjectKeepsScriptPaths /\ ~bufpkg THEN [projpaths EXCEPT ![p] = TRUE] ELSE projpaths
+  /\ IF root THEN Lookup(p, m, truth)
+     ELSE /\ ans' = [m |-> m, got |-> Absent, truth |-> truth]
+          /\ UNCHANGED <<fs, dirm, now, nver, maxseen, mem, pick, finder, bufpkg>>
 
 Next == Tick \/ (\E m \in Mods : Write(m) \/ Delete(m)) \/ (\E a, b \in Mods : Rename(a, b))
-        \/ (\E p \in Procs : NewProcess(p)) \/ (\E p \in Procs, m \in Mods : Resolve(p, m))
+        \/ (\E p \in Procs : NewProcess(p)) \/ (\E p \in Procs, m \in Mods : Resolve(p, m) \/ ResolveTop(p, m))
+        \/ ToggleInit
 Spec == Init /\ [][Next]_vars
 
 \* "a definition that no longer exists is never reported and a new one is never missed"
